@@ -28,7 +28,7 @@ fn known_level(sig: &str) -> u8 {
     for k in known().iter() {
         if k == sig { return 2 }
         let (a, b): (Vec<&str>, Vec<&str>) = (k.split('|').collect(), sig.split('|').collect());
-        if a.len() == 5 && b.len() == 5 && a[0] == "panic" && a[0] == b[0] && a[1] == b[1] && a[3] == b[3] && a[4] == b[4] { best = 1 }
+        if a.len() == 6 && b.len() == 6 && a[0] == "panic" && a[0] == b[0] && a[1] == b[1] && a[3] == b[3] && a[4] == b[4] && a[5] == b[5] { best = 1 }
     }
     best
 }
